@@ -354,6 +354,27 @@ CLAIMED.update({
 })
 
 
+CLAIMED.update({
+    "C17": dict(
+        engine="mirsem",
+        technique="symbolic execution of the rustc MIR of PyScriptGenerator::transpile_lit (which function writes a string literal, applied to what) and of that string kernel: "
+                  "the input string is k arbitrary Unicode scalar values (z3 integers), String building, str::chars and str::replace are modelled, each path's output is a sequence of "
+                  "code-point terms that a reference decoder of Python's string-literal syntax parses with z3 entailment queries; counterexamples are replayed on the real kernel "
+                  "(cargo test, read back with python's ast.literal_eval) and as programs (`erg run` vs `erg transpile` + python3)",
+        category="other",
+        text="Kernel-level partial claim on 'transpiled Python behaves like the compiled bytecode': the text written for a string literal of the program is <class>(K(x)) for one "
+             "function K applied to the literal's value (or the token's content), and for every string of k characters (k <= 2 quick, <= 3 thorough; every Unicode scalar value for "
+             "each character) K's text is exactly one double-quoted Python string literal that denotes the same string (quotes, backslashes, newlines, NUL, the octal-escape "
+             "digit-swallowing rule, \\x / \\u escapes). Everything else of the transpiler - statements, names and mangling, calls, classes, records, the runtime prelude - and whole-"
+             "program behaviour under the interpreter are not decided.",
+        note="Trusts rustc's MIR dump, engines/mirsem.py + mirflow.py, z3, the reference decoder of Python's literal syntax in props/c17.py (every counterexample is confirmed by "
+             "CPython's own ast.literal_eval before it is reported), and the models of String::push / push_str / with_capacity / len, str::chars, Chars::next, str::replace::<char> "
+             "(a symbolic character forks the path) and format! placeholders. Validated per run: on 22 fixed strings the real kernel's output equals the encoding's byte for byte. "
+             "Multi-line literals, string interpolation (desugared before this point) and strings longer than k are outside.",
+        design="0b/C17"),
+})
+
+
 def load_na():
     p = os.path.join(VERIF, "data", "not_applicable.json")
     return json.load(open(p))
